@@ -267,6 +267,26 @@ def r8_factor_table(idx, r):
         raise AnalysisError("no binding of ExpansionData._expansionFactors found")
 
 
+def r9_unique_link_both_ways(idx, r):
+    """A component may be axially linked to at most ONE component of the block above and ONE of the block below; the search that finds the
+    linked component must look at every candidate (no early exit) and is called in the same way for both neighbours, or a component resting
+    on two linked components is silently tied to the first."""
+    c = idx.cls(AXM + ".assemblyAxialLinkage.AssemblyAxialLinkage")
+    f = c.methods.get("_findComponentLinkedTo") if c is not None else None
+    g = c.methods.get("_getLinkedComponents") if c is not None else None
+    if f is None or g is None:
+        raise AnchorMissing("AssemblyAxialLinkage._findComponentLinkedTo / _getLinkedComponents")
+    loops = [x for x in walk_local(f.node) if isinstance(x, ast.For)]
+    early = [x for lp in loops for x in ast.walk(lp) if isinstance(x, (ast.Break, ast.Return))]
+    r.require(bool(loops) and not early, "_findComponentLinkedTo:scans-every-candidate", f, node=early[0] if early else None,
+              msg="the candidate scan can stop at the first linked component: a second linked component in the same neighbouring block is no longer noticed and refused")
+    r.require(any(isinstance(x, ast.Raise) for x in walk_local(f.node)), "_findComponentLinkedTo:multiple-links-refused", f, msg="more than one linked component in a neighbouring block must raise")
+    calls = [c_ for c_ in iter_calls(g.node) if dotted(c_.func) == "self._findComponentLinkedTo"]
+    shapes = {(len(c_.args), tuple(sorted(k.arg for k in c_.keywords))) for c_ in calls}
+    r.require(len(calls) == 2 and len(shapes) == 1, "_getLinkedComponents:both-neighbours-searched-alike", g, node=calls[0] if calls else None,
+              msg=f"the upper and the lower neighbour are searched with different arguments {sorted(shapes)}: uniqueness is then enforced for one direction only")
+
+
 def run(idx, chk):
     chk.explanation = (
         "C12: axiallyExpandAssembly typed with a role generator for the growth fraction (height x growth, densities x growth^-1); block bottoms on the "
@@ -288,3 +308,5 @@ def run(idx, chk):
                  necessary="'moves each block boundary with its designated target component'")
     chk.run_rule("R12.8", "one factor table per ExpansionData: bound at construction only, an entry stored on every thermal path; targets registered on block and registry alike", lambda r: r8_factor_table(idx, r), floor=5,
                  necessary="a block's height follows its designated target and a zero net temperature change restores the assembly")
+    chk.run_rule("R12.9", "the search for the axially linked component scans every candidate and treats both neighbours alike", lambda r: r9_unique_link_both_ways(idx, r), floor=3,
+                 necessary="a component linked to two components of a neighbouring block is refused, whichever side they are on")
